@@ -15,6 +15,7 @@ pub mod c16;
 pub mod c17;
 pub mod c18;
 pub mod dom;
+pub mod rootless;
 
 pub struct Entry {
     pub id: &'static str,
